@@ -31,11 +31,44 @@ def run(F, tier, res):
     from ..facts import reach
     from .c20 import _find_binop_rvalue
 
+    def pred_buffers(q):
+        """q is a local bool function; the buffers b for which `q(..) == false` implies len(b) <= line_buffer_size: q is a disjunction
+        of `len(b) > limit` tests (no `_0 = false` short-circuit, nothing else feeding the result)"""
+        if q not in F.fn_bodies or F.bodies[q]['mir']['locals'][0] != 'bool':
+            return set()
+        bufs = set()
+        for blk in F.blocks(q):
+            for st in blk['s']:
+                if st[0] == 'assign' and st[1]['l'] == 0 and not st[1]['p'] and st[2][0] == 'use' and 'const' in st[2][1] and 'false' in st[2][1]['const'].get('repr', ''):
+                    return set()
+                if st[0] == 'assign' and st[2][0] == 'binop' and st[2][1] in ('Gt', 'Ge'):
+                    l_, r_ = F.trace(q, st[2][2]), F.trace(q, st[2][3])
+                    if any(x[0] == 'param' and x[2] and x[2][-1] == 'line_buffer_size' for x in r_):
+                        for x in l_:
+                            if x[0] == 'call' and x[1].endswith('::len'):
+                                for a in x[4]['args'][:1]:
+                                    for rr in F.trace(q, a):
+                                        if rr[0] == 'param' and rr[2] and rr[2][-1] in ('minus_lines', 'plus_lines'):
+                                            bufs.add(rr[2][-1])
+        rr0 = F.trace(q, {'copy': {'l': 0, 'p': []}})
+        if any(x[0] == 'unop' for x in rr0) or any(x[0] == 'call' and not x[1].endswith('::len') and not x[1].endswith(('::deref', '::as_ref')) for x in rr0):
+            return set()
+        return bufs
+
     def buffer_guards(fn):
         """{buffer: [(switch_bb, exceeds_target, notexceeds_target)]} for comparisons of a subhunk buffer's len() with line_buffer_size"""
         guards = {}
         for (sb, op, arms, other) in Ru.switches(F, fn):
             roots = F.trace(fn, op)
+            # the test may have been extracted into a predicate method
+            for r in roots:
+                if r[0] == 'call':
+                    q = r[1] if r[1] in F.fn_bodies else (r[4].get('resolved') or '')
+                    pb_ = pred_buffers(q)
+                    if pb_ and Ru.negations(F, fn, op) % 2 == 0:
+                        tt, ft = Ru.bool_edges(arms, other)
+                        for w in pb_:
+                            guards.setdefault(w, []).append((sb, tt, ft))
             cmpop = [r for r in roots if r[0] == 'binop' and r[1] in ('Gt', 'Ge', 'Lt', 'Le')]
             lens = [r for r in roots if r[0] == 'call' and r[1].endswith('::len')]
             lim = any(r[0] == 'param' and r[2] and r[2][-1] == 'line_buffer_size' for r in roots)
@@ -86,6 +119,14 @@ def run(F, tier, res):
                 for r in F.trace(hl, c['args'][0]):
                     if r[0] == 'param' and r[2] and r[2][-1] in ('minus_lines', 'plus_lines'):
                         pushes.append((i, r[2][-1]))
+            # a push made by a method the handler calls (extract-method refactorings) counts at the call
+            g_ = callee_of(c) if callee_of(c) in F.fn_bodies else (c.get('resolved') or '')
+            if g_ in F.fn_bodies and g_ != hl and 'StateMachine' in ' '.join(F.bodies[g_]['mir']['locals'][1:2]):
+                for _, c2 in F.calls(g_):
+                    if callee_of(c2).endswith('::push') and c2['args']:
+                        for r in F.trace(g_, c2['args'][0]):
+                            if r[0] == 'param' and r[2] and r[2][-1] in ('minus_lines', 'plus_lines'):
+                                pushes.append((i, r[2][-1]))
         for (pb, fld) in pushes:
             n += 1
             helpers = {i for i, c in F.calls(hl) if callee_of(c) in F.fn_bodies and callee_of(c) not in reaches_paint - {callee_of(c)} and is_guarding_helper(callee_of(c), fld)}
